@@ -460,3 +460,10 @@ ADDENDA_R10 = {
     "C17": ("R17.10", "a file named on the command line is the user's own whatever the lookup said", "condition analysis of the override"),
     "C20": ("character-read clause of R20.12", "no character of a module-definition string is read without a null test of that pointer", "same-expression null test"),
 }
+
+
+# Triage of the round-10 side observations (DESIGN.md section 9, round 10).
+ADDENDA_R10T = {
+    "C02": ("R02.14", "in the runtime's property wrappers a new reference fetched through _getitem_func is returned, stolen or released on every non-null path (found F-C02c, F-C02d)", "reference-ownership typestate over the CFG (cut edges: the null tests; cut blocks: the disposals)"),
+    "C15": ("R15.32, R15.33", "a pre-decremented unsigned subscript has a floor (found F-C15ac, which round 1 had dismissed); a pointer the code itself found null is not used afterwards without a new test (found F-C15ad)", "index-floor evidence; contradiction rule with callee summaries"),
+}
